@@ -62,3 +62,29 @@ Theorem C03_regenerated_rangeScan : forall fuel t gs ge ts te ans, xtwf t ->
   Some (walk (range_leaf_act gs ge) (expand_range (range_search ts te)) fuel [(tabs t, 0%nat)] ans 0 []).
 Proof. exact gen_rangeScan_eq. Qed.
 Print Assumptions C03_regenerated_rangeScan.
+
+(* the regenerated tie: the Range METHODS of the trees (trees.go, one template; collation.go), translated from the Go AST
+   on every run (Gen/ApiGen.v) over the regenerated rangeScan / maximum / Search, ARE Model.Api.do_range read on the raw
+   state through sabs: the empty tree, the open end (re-read from the maximum leaf through the regenerated restoreKey),
+   the swap, and for the numeric kinds the comparison of the ENCODED bounds with the equal-bounds lookup; the codec is
+   a parameter, instantiated with the model's transform / restore (alpha: the identity codec, the terminator is added
+   by the regenerated code); the budgets are the ones Model/Api.v gives (theight for maximum, walk_fuel for the scan,
+   key_fuel for Search). kres_out reads what the consumer was called with the way Api.seq_out does. Hypotheses: the
+   invariants every reachable state satisfies (TranslateApiFacts.state_hyps_reachable, alpha_keys_reachable). *)
+From GoArt Require Import Model.Api Model.PoolTree Proofs.PoolTreeFacts Model.GoTree Gen.ApiGen Proofs.TranslateApiFacts.
+Theorem C03_regenerated_alpha_Range : forall tr st a b ans fm fr, sinv st -> root_wf (sabs st) -> keys_ok nonempty_key st ->
+  (forall t, xroot st = Some t -> fm = theight (tabs t) /\ fr = walk_fuel (tabs t)) ->
+  kres_out AB (g_alpha_Range tr alpha_rs fm fr (xroot st) a b ans) = do_range KAlpha (sabs st) (AB a) (AB b) ans.
+Proof. exact gen_alpha_range_eq. Qed.
+Print Assumptions C03_regenerated_alpha_Range.
+Theorem C03_regenerated_float_Range : forall w st a b ans fr, sinv st -> isbytes (snd (transform (KFloat w) a)) = true ->
+  (forall t, xroot st = Some t -> fr = walk_fuel (tabs t)) ->
+  kres_out idk (g_float_Range akey (mtr (KFloat w)) (mrs (KFloat w)) (key_fuel (snd (transform (KFloat w) a))) fr (xroot st) a b ans) =
+  do_range (KFloat w) (sabs st) a b ans.
+Proof. exact gen_float_range_eq. Qed.
+Print Assumptions C03_regenerated_float_Range.
+Theorem C03_regenerated_compound_Range : forall k st a b ans fm fr, is_cmp k = true -> sinv st -> root_wf (sabs st) ->
+  (forall t, xroot st = Some t -> fm = theight (tabs t) /\ fr = walk_fuel (tabs t)) ->
+  kres_out idk (g_compound_Range akey (mtr k) (mrs k) fm fr (xroot st) a b ans) = do_range k (sabs st) a b ans.
+Proof. exact gen_compound_range_eq. Qed.
+Print Assumptions C03_regenerated_compound_Range.
